@@ -1,13 +1,14 @@
 #!/bin/bash
-# usage: refmatrix.sh <dir-with-R*/k/patch.diff>   (behaviour-preserving refactorings)
+# usage: refmatrix.sh <dir> [name] [props]   (behaviour-preserving refactorings: <dir>/R3/2/patch.diff or <dir>/R3-2/patch.diff)
 # For each patch: one scratch copy, all 20 property checks. Any VIOLATION is a false alarm.
 set -u
 export GOFLAGS=-mod=mod GOPROXY=off GOSUMDB=off GOTOOLCHAIN=local GOWORK=off
 root=${1:-/tmp/wt_out}
 only=${2:-}
 props=${3:-$(for i in $(seq -w 1 20); do echo C$i; done)}
-for patch in $(ls $root/[RS]*/*/patch.diff | sort -V); do
-  name=$(echo "$patch" | sed -E 's#.*/([RS][0-9]+)/([0-9]+)/patch.diff#\1-\2#')
+# two layouts: <root>/R3/2/patch.diff (sub-agent output) and <root>/R3-2/patch.diff (as kept under /verif)
+for patch in $(ls $root/[A-Z]*/[0-9]*/patch.diff $root/[A-Z]*-[0-9]*/patch.diff 2>/dev/null | sort -V); do
+  name=$(echo "$patch" | sed -E 's#.*/([A-Z]+[0-9]+)/([0-9]+)/patch.diff#\1-\2#; s#.*/([A-Z]+[0-9]+-[0-9]+)/patch.diff#\1#')
   [ -n "$only" ] && [ "$only" != "$name" ] && continue
   scratch=$(mktemp -d /tmp/gmcref.XXXXXX)
   [ -n "$scratch" ] && [ -d "$scratch" ] || { echo "NO-SCRATCH"; exit 9; }
